@@ -97,8 +97,19 @@ def theorem_names(prop_files):
         if not os.path.exists(path):
             continue
         txt = strip_comments(open(path).read())
-        for m in re.finditer(r'^\s*(?:private\s+|protected\s+)?theorem\s+([^\s:({\[]+)', txt, re.M):
-            names.append(m.group(1))
+        ns = []
+        for line in txt.splitlines():
+            m = re.match(r'^\s*namespace\s+(\S+)', line)
+            if m:
+                ns.append(m.group(1))
+                continue
+            m = re.match(r'^\s*end\s+(\S+)', line)
+            if m and ns and ns[-1] == m.group(1):
+                ns.pop()
+                continue
+            m = re.match(r'^\s*(?:private\s+|protected\s+)?theorem\s+([^\s:({\[]+)', line)
+            if m:
+                names.append('.'.join(ns + [m.group(1)]))
     return names
 
 
